@@ -79,6 +79,8 @@ def compare(case, m, r, pid="C01"):
     # model vs implementation
     if m[0] == "Ok":
         ml = pepper.canon_model_lines(m[1][1])
+        if len(m[1]) > 4 and m[1][4] != "T":
+            fails.append({"kind": "tie", "key": "names-nostar", "summary": "a generated program has a sequence or structure name containing '*': the name hypothesis of the composed C06 / C14 theorems (what the statement grammar yields) does not hold of it", "replay": rep})
         if len(m[1]) > 2 and m[1][2] != "T":
             fails.append({"kind": "tie", "key": "wf-hypothesis", "summary": "the verified checker wf_check rejects the model's component object: the hypothesis WF of the emission theorems is not established for this program", "replay": rep})
         if r["outcome"] != "ok":
